@@ -169,12 +169,17 @@ def weaken_table(run, model, rule="C04.weaken"):
                         if uncopied(p.outcome[1]) != ("op", "Add", (bp, op)):
                             bad = "the collapsed preconditions are %s, expected inherited groups + own group (groups stay separate: OR between classes)" % show(strip_sites(p.outcome[1]))
                 run.check(bad is None, rule, construct, "outcome `%s`" % want, bad or "", fi.loc(), None, construct.split("[", 1)[1])
+    post_collapse(run, model, "C04.post-prov")
+
+
+def post_collapse(run, model, rule="C04.post-prov"):
+    """The collapsed postconditions are all the inherited ones followed by all the own ones -- none is dropped."""
     fi2 = model.func("_metaclass._collapse_postconditions", required=False)
     if fi2 is None:
         # the trivial helper was inlined at its call sites: the provenance rule sees `inherited + own` there
         return
     rt = meta.Summaries(model).return_term(fi2)
-    run.check(rt == ("op", "Add", (("param", fi2.params[0]), ("param", fi2.params[1]))), "C04.post-prov", fi2.qual, "returns inherited + own (conjunction, inherited first)", "returns %s, expected inherited + own" % show(strip_sites(rt)), fi2.loc())
+    run.check(rt == ("op", "Add", (("param", fi2.params[0]), ("param", fi2.params[1]))), rule, fi2.qual, "returns inherited + own (conjunction, inherited first)", "returns %s, expected inherited + own" % show(strip_sites(rt)), fi2.loc())
 
 
 def invariant_provenance(run, model, rule="C04.inv-prov", rule_own="C17.own-lists"):
